@@ -89,7 +89,9 @@ def unit_sets(tier, seed):
         yield "rule-families", families.rule_family(level=1), [("-greedy",)]
         yield "mem-families", families.mem_family(k=2), [("-greedy",), ("-storage", "-greedy"),
                                                          ("-partition", "-greedy"), ("-no-simplification", "-greedy")]
+        yield "sandwich-family/2", list(families.sandwich_family())[::2], [("-greedy",)]
     else:
+        yield "sandwich-family", families.sandwich_family(), c1
         yield "tree(CORE,4)", B.tree(B.CORE, 4), c1
         yield "tree(CORE,2)@all", B.tree(B.CORE, 2), configs.all_configs()
         yield "tree(MIXED,4)", B.tree(B.MIXED, 4), c2
